@@ -42,6 +42,8 @@ def main():
         caught = [p for p, c in meta["checks"].items() if c["caught"]]
         print(d, "demo", o.get("demo_without"), o.get("demo_with"), "| tests:", o.get("tests_with"), "| caught by:", caught, "| concrete input:", [p for p, c in meta["checks"].items() if c["with_failing_input"]])
         table.append((d, meta))
+    # the runs above were made against a CHANGED /repo: their evidence files must not stay in the tree
+    subprocess.run(["git", "-C", VERIF, "checkout", "--", "evidence"], stdout=subprocess.DEVNULL, stderr=subprocess.DEVNULL)
     return 0
 
 
